@@ -5,6 +5,24 @@ use crate::rng::Rng;
 pub const MAGIC: &[u8] = b"Gh0st";
 
 pub fn gen_request(rng: &mut Rng) -> Vec<u8> {
+    if rng.chance(1, 2) {
+        // the real framing: magic, total length, uncompressed length (LE32 each), zlib stream
+        let mut v = MAGIC.to_vec();
+        let body_len = rng.range(0, 200) as usize;
+        let total = if rng.chance(3, 4) { 13 + 2 + body_len } else { rng.u32() as usize };
+        v.extend_from_slice(&(total as u32).to_le_bytes());
+        v.extend_from_slice(&(if rng.chance(3, 4) { rng.range(0, 4096) as u32 } else { rng.u32() }).to_le_bytes());
+        // zlib header: CMF 0x78 with any FLG that passes the header check (incl. FDICT ones), or anything
+        let (cmf, flg) = match rng.below(4) {
+            0 => (0x78u8, 0x9cu8),
+            1 | 2 => (0x78, *rng.pick(&[0x01u8, 0x20, 0x3f, 0x5e, 0x7d, 0x9c, 0xbb, 0xda, 0xf9])),
+            _ => (rng.u8(), rng.u8()),
+        };
+        v.push(cmf);
+        v.push(flg);
+        v.extend_from_slice(&rng.bytes(body_len));
+        return v;
+    }
     let mut v = MAGIC.to_vec();
     let n = match rng.below(4) {
         0 => 0,
